@@ -33,6 +33,9 @@ Proof.
   apply Z.ltb_ge in E1. apply nth_error_upd_other. lia.
 Qed.
 
+Lemma skipn_skipn' {A} (x y : nat) (l : list A) : skipn x (skipn y l) = skipn (y + x) l.
+Proof. revert l. induction y as [|y IH]; intros l; [reflexivity|]. destruct l; [destruct x; reflexivity|]. cbn. apply IH. Qed.
+
 (* ---- splice on nat offsets ---- *)
 Lemma splice_read_inside (bs v : list byte) o : (o + length v <= length bs)%nat ->
   firstn (length v) (skipn o (firstn o bs ++ v ++ skipn (o + length v) bs)) = v.
@@ -58,7 +61,7 @@ Proof.
   intros H1 H2. rewrite skipn_app. rewrite firstn_length, Nat.min_l by lia.
   rewrite skipn_all2 by (rewrite firstn_length; lia). cbn [app].
   rewrite skipn_app. rewrite skipn_all2 by lia. cbn [app].
-  rewrite skipn_skipn. f_equal. lia.
+  rewrite skipn_skipn'. f_equal. lia.
 Qed.
 
 Lemma splice_nat bs off v : 0 <= off ->
@@ -143,17 +146,17 @@ Proof. unfold lens. apply map_app. Qed.
 Lemma region_base_decode r off : 0 <= r -> 0 <= off < STRIDE ->
   ARENA <= region_base r + off /\ (region_base r + off - ARENA) / STRIDE = r /\ (region_base r + off - ARENA) mod STRIDE = off.
 Proof.
-  intros Hr Ho. unfold region_base. pose proof STRIDE_pos. split; [nia|]. split.
+  intros Hr Ho. unfold region_base. pose proof STRIDE_pos. pose proof (Z.mul_nonneg_nonneg r STRIDE Hr ltac:(lia)). split; [lia|]. split.
   - symmetry. apply (Z.div_unique_pos _ _ _ off); lia.
   - symmetry. apply (Z.mod_unique_pos _ _ r); lia.
 Qed.
 
 Lemma nth_z_app_last {A} (l : list A) x : nth_z (l ++ [x]) (len l) = Some x.
 Proof.
-  unfold nth_z. rewrite len_app, len_cons, len_nil. pose proof (len_nonneg l).
-  destruct (len l <? 0) eqn:E1; [apply Z.ltb_lt in E1; lia|].
-  destruct (len l + (1 + 0) <=? len l) eqn:E2; [apply Z.leb_le in E2; lia|]. cbn [orb].
-  unfold len. rewrite Nat2Z.id. rewrite nth_error_app2 by lia. rewrite Nat.sub_diag. reflexivity.
+  unfold nth_z, len. rewrite app_length. cbn [length].
+  destruct (Z.of_nat (length l) <? 0) eqn:E1; [apply Z.ltb_lt in E1; lia|].
+  destruct (Z.of_nat (length l + 1) <=? Z.of_nat (length l)) eqn:E2; [apply Z.leb_le in E2; lia|]. cbn [orb].
+  rewrite Nat2Z.id. rewrite nth_error_app2 by lia. rewrite Nat.sub_diag. reflexivity.
 Qed.
 
 Lemma upd_nth_app_last {A} (l : list A) x y : upd_nth (l ++ [x]) (length l) y = l ++ [y].
@@ -171,7 +174,7 @@ Proof.
   rewrite Hq, Ho, nth_z_app_last.
   assert (Hz : len (zeros (len d)) = len d) by (unfold zeros, len; rewrite repeat_length; lia).
   rewrite Hz. destruct (0 + len d <=? len d) eqn:El; [|apply Z.leb_gt in El; lia].
-  f_equal. unfold len at 1. rewrite Nat2Z.id. rewrite upd_nth_app_last. f_equal. f_equal.
+  f_equal. replace (Z.to_nat (len m)) with (length m) by (unfold len; lia). rewrite upd_nth_app_last. f_equal. f_equal.
   unfold splice. cbn [Z.to_nat firstn app]. rewrite skipn_all2; [apply app_nil_r|].
   unfold zeros, len. rewrite repeat_length. lia.
 Qed.
